@@ -9,6 +9,7 @@ import multiprocessing
 import os
 
 import common
+import c19_audit
 from common import coq_lit, Nat, CoqRaw
 
 REMOVED = -123456
@@ -42,14 +43,26 @@ def py_get_order(shape, snake, priority=None):
     return [[r[a] for a in range(d)] for r in rec(0)]
 
 
-def py_grouped(shape, groups):
-    """get_order_grouped docstring (priority None)."""
+def py_grouped(shape, groups, priority=None):
+    """get_order_grouped docstring: first within a group, then along the last spatial direction, then the next group,
+    finally C-style along the remaining spatial directions.  With a priority (its last entry the largest, so that the
+    unit cell index is the grouped direction) the directions are taken in the order of their priority, as in get_order."""
+    d = len(shape)
+    dirs = list(range(d)) if priority is None else sorted(range(d), key=lambda a: priority[a])
+    if dirs[-1] != d - 1:
+        return None               # grouping along another direction: "try and plot it" - not documented precisely
+    ydir, others = dirs[-2], dirs[:-2]
     res = []
-    for xs in itertools.product(*[range(L) for L in shape[:-2]]):
+    for xs in itertools.product(*[range(shape[a]) for a in others]):
         for gr in groups:
-            for y in range(shape[-2]):
+            for y in range(shape[ydir]):
                 for u in gr:
-                    res.append(list(xs) + [y, u])
+                    row = [None] * d
+                    for a, x in zip(others, xs):
+                        row[a] = x
+                    row[ydir] = y
+                    row[-1] = u
+                    res.append(row)
     return res
 
 
@@ -100,9 +113,7 @@ def expected_order(cls, shape, order):
         if cls == 'Kagome' and order == 'rings':
             return py_grouped(shape, [(0, 2), (1,)])
     elif order[0] == 'grouped':
-        if len(order) > 2 and order[2] is not None:
-            return None
-        return py_grouped(shape, order[1])
+        return py_grouped(shape, order[1], order[2] if len(order) > 2 else None)
     sp = std_params(cls, dim, order)
     if sp is None:
         return None
@@ -138,7 +149,7 @@ def effective(spec):
     extract_segment(first, last | enlarge): a copy enlarged by last // N_sites + 1, MPS sites first..last kept,
       bc_MPS 'segment' (a finite lattice becomes periodic along x)."""
     Ls = list(spec['Ls'])
-    bc = list(spec['bc'])
+    bc = norm_bc(spec['bc'], len(Ls))
     bc_MPS = spec['bc_MPS']
     Lu, N = base_counts(spec)
     w = spec.get('wrap')
@@ -147,11 +158,13 @@ def effective(spec):
     first, last, f = 0, None, 1
     if tr:
         if tr['op'] == 'enlarge':
-            f = tr['factor']
+            f = tr['factor'] if tr.get('factor') is not None else 2          # documented default factor=2
         elif tr['op'] == 'segment':
             if tr.get('enlarge') is not None:
                 f = tr['enlarge']
                 last = f * N - 1
+            elif tr.get('last') is None:                 # documented default: last = N_sites - 1
+                first, last = tr.get('first') or 0, N - 1
             else:
                 first, last = tr['first'], tr['last']
                 f = last // N + 1
@@ -179,10 +192,24 @@ def transform_text(tr):
     if not tr:
         return ''
     if tr['op'] == 'enlarge':
-        return ' .enlarge_mps_unit_cell(%d)' % tr['factor']
+        return ' .enlarge_mps_unit_cell(%s)' % ('' if tr.get('factor') is None else tr['factor'])
     if tr.get('enlarge') is not None:
         return ' .extract_segment(enlarge=%d)' % tr['enlarge']
+    if tr.get('last') is None:
+        return ' .extract_segment(%s)' % (tr.get('first') or '')
     return ' .extract_segment(%d, %d)' % (tr['first'], tr['last'])
+
+
+def norm_bc(bc, d):
+    """the boundary conditions as a list with one entry per direction; a shift of 0 is plain 'periodic'"""
+    if isinstance(bc, str):
+        return [bc] * d
+    return ['periodic' if (isinstance(b, int) and b == 0) else b for b in bc]
+
+
+def order_of(spec):
+    """the order option that produced the current order of the lattice (the last one given to the order setter)"""
+    return spec['reorder'] if spec.get('reorder') is not None else spec['order']
 
 # ----------------------------------------------------------------------------------------------------
 # generators
@@ -216,6 +243,11 @@ def random_order_spec(cls, dim, Lu, rng, ctor=True):
     rng.shuffle(us)
     cut = sorted(rng.sample(range(1, Lu), rng.randint(0, Lu - 1))) if Lu > 1 else []
     groups = [us[a:b] for a, b in zip([0] + cut, cut + [Lu])]
+    if rng.random() < 0.4:
+        # with a priority: a random order of the spatial directions, the unit cell index last (= the grouped direction)
+        prio = list(range(dim))
+        rng.shuffle(prio)
+        return ['grouped', groups, prio + [dim + rng.choice([0, 0.5])]]
     return ['grouped', groups]
 
 
@@ -230,6 +262,17 @@ def bc_combos(dim, thorough):
             if b0 == 'periodic':
                 out.append(([b0] + list(rest), 'infinite'))
     return out
+
+
+def bc_form(bc, counter):
+    """the same boundary conditions in the other documented forms of the argument: one string for all directions;
+    the integer shift 0 for a periodic direction"""
+    bc = list(bc)
+    if all(isinstance(b, str) for b in bc) and len(set(bc)) == 1 and counter % 2 == 0:
+        return bc[0]
+    if counter % 3 == 0:
+        return [0 if (a > 0 and b == 'periodic') else b for a, b in enumerate(bc)]
+    return bc
 
 
 def all_dx(Ls, extra=0):
@@ -262,12 +305,28 @@ def make_queries(rng, Ls, Lu, N, infinite, max_upairs, n_multi, extra_dx=0):
                 dx = [0] * len(Ls)
             ops.append([dx, rng.randrange(Lu)])
         multi.append(ops)
+    if n_multi:
+        # a single operator (the box is one point; its dx need not be 0), and two-operator terms that are exactly a
+        # possible_couplings query (u1 at the origin, u2 at dx): both enumerations must agree
+        multi.append([[[rng.randint(-1, 1) for L in Ls], rng.randrange(Lu)]])
+        inside = [k for k, c in enumerate(q['couplings']) if all(abs(x) <= L for x, L in zip(c[2], Ls))]
+        pick = rng.sample(inside, min(3, len(inside)))
+        q['multi_from_c'] = [[len(multi) + n, k] for n, k in enumerate(pick)]
+        for k in pick:
+            a, b, dx = q['couplings'][k]
+            multi.append([[[0] * len(Ls), a], [list(dx), b]])
     q['multi'] = multi
     if infinite:
         q['masked'] = [sorted(rng.sample(range(-N, 2 * N), min(3 * N, rng.randint(1, 4)))), list(range(N))]
     else:
         q['masked'] = [sorted(rng.sample(range(N), rng.randint(1, N))), list(range(N))]
+    q['masked_variant'] = rng.randrange(4)
     q['values2'] = N <= 12
+    # options of find_coupling_pairs (used when the geometry is queried): max_dx, cutoff (None = max_dx - eps), all defaults
+    md = rng.choice([1, 2, 3, 3])
+    q['max_dx'] = md
+    q['cutoff'] = rng.choice([None, 2.5 if md == 3 else None, round(rng.uniform(0.6, md - 0.05), 2) + 0.003])
+    q['fcp_defaults'] = rng.random() < 0.15
     return q
 
 
@@ -277,6 +336,9 @@ MAX_N_TRANSFORMED = 40
 def with_transform(rng, b, tr):
     """copy of the lattice specification b with the transform tr and queries for the transformed lattice"""
     s = {key: b[key] for key in ('cls', 'Ls', 'Lu', 'order', 'custom_perm', 'bc', 'bc_MPS', 'wrap', 'kind')}
+    for key in ('reorder', 'opts', 'geom'):
+        if b.get(key) is not None:
+            s[key] = b[key]
     s['transform'] = tr
     eff = effective(s)
     s['queries'] = make_queries(rng, eff['Ls'], eff['Lu'], eff['N'], eff['inf'], 4, 2)
@@ -316,7 +378,8 @@ def gen_transformed(ctx, scale, specs):
             continue
         op = rng.choice(ops)
         if op == 'enlarge':
-            tr = {'op': 'enlarge', 'factor': rng.randint(2, fmax)}
+            # factor 1 (nothing changes) and the default factor are drawn as well
+            tr = {'op': 'enlarge', 'factor': rng.choice([1, None] + [rng.randint(2, fmax)] * 6)}
         elif op == 'segment-enlarge':
             tr = {'op': 'segment', 'enlarge': rng.randint(1, fmax)}
         else:
@@ -325,7 +388,19 @@ def gen_transformed(ctx, scale, specs):
             last = rng.randrange(first, top)
             if rng.random() < 0.2:
                 first = 0
-            tr = {'op': 'segment', 'first': first, 'last': last}
+            r = rng.random()
+            if r < 0.1:
+                tr = {'op': 'segment'}                          # all defaults: the whole MPS unit cell
+            elif r < 0.2:
+                tr = {'op': 'segment', 'first': first}          # last defaults to N_sites - 1
+            else:
+                # boundary values of last: exactly the last site of a unit cell, the first site of the next one
+                if r < 0.35:
+                    last = max(first, (rng.randint(1, top // N)) * N - 1)
+                elif r < 0.5 and top > N:
+                    last = rng.randint(1, top // N - 1) * N
+                tr = {'op': 'segment', 'first': first, 'last': last}
+        out.append(with_transform(rng, b, tr))
         out.append(with_transform(rng, b, tr))
     # helical lattices: both the case that the enlarged MPS unit cell still fits into the regular lattice and the case
     # that the regular lattice has to grow
@@ -392,6 +467,7 @@ def gen_specs(ctx, scale):
     for c in ('Square', 'Triangular', 'Honeycomb', 'Kagome'):
         fam += [(c, s, CLS_LU[c]) for s in sizes2d()]
     fam += [('Lattice', [2, 2, 2], 2), ('Lattice', [3, 2, 2], 1), ('Lattice', [2, 1, 3], 1), ('Lattice', [1, 2], 2)]
+    fam += [('Trivial', [1], n) for n in range(1, 6 if th else 5)]
     if th:
         fam += [('Lattice', [2, 3, 2], 2), ('Lattice', [2, 2, 2, 2], 1)]
     n_ord = (3 if th else 1) * scale
@@ -424,8 +500,12 @@ def gen_specs(ctx, scale):
                 else:
                     bc_MPS_ = bc_MPS
                 N = int(math.prod(Ls)) * Lu
-                spec = {'cls': cls, 'Ls': Ls, 'Lu': Lu, 'order': order, 'custom_perm': perm, 'bc': bc,
-                        'bc_MPS': bc_MPS_, 'wrap': None, 'kind': 'regular'}
+                spec = {'cls': cls, 'Ls': Ls, 'Lu': Lu, 'order': order, 'custom_perm': perm, 'bc': bc_form(bc, counter),
+                        'bc_MPS': bc_MPS_, 'wrap': None, 'kind': 'regular',
+                        'opts': {'bc_roundtrip': counter % 4 == 1, 'sites_none': counter % 9 == 4}}
+                if counter % 7 == 3:
+                    # the order is changed after construction (and after a first use) through ordering() + the order setter
+                    spec['reorder'] = names[(counter // 7) % len(names)] if counter % 2 else random_order_spec(cls, dim, Lu, rng, ctor=False)
                 spec['queries'] = make_queries(rng, Ls, Lu, N, bc_MPS_ != 'finite', 4 if not th else 6,
                                                3, extra_dx=1 if rng.random() < 0.2 else 0)
                 spec['queries']['orderings'] = [names[(counter + 1) % len(names)], random_order_spec(cls, dim, Lu, rng, ctor=False)]
@@ -477,6 +557,14 @@ def gen_specs(ctx, scale):
             Lu2 = s['Lu'] + n_add_uc
             Nirr = Nreg - len(rem) + (len(add[0]) if add else 0)
             s['queries'] = make_queries(rng, Ls, Lu2, Nirr, inf, 4, 2)
+        # ordering() of the wrapped lattice (MultiSpeciesLattice.ordering / IrregularLattice.ordering) with the options of the
+        # lattice below; for every fifth lattice the result becomes its order (order setter of the wrapped class, after a first use)
+        names = named_orders(s['cls'], len(Ls), s['Lu'], rng)
+        s['queries']['orderings'] = [names[k % len(names)], random_order_spec(s['cls'], len(Ls), s['Lu'], rng, ctor=False)]
+        s['opts'] = {'bc_roundtrip': k % 5 == 2}
+        if k % 5 == 1:
+            s['reorder'] = rng.choice(s['queries']['orderings'])
+            s['custom_perm'] = None
         specs.append(s)
     # helical: regular 2D lattice with bc ['periodic', -1], infinite, C-style order up to a permutation of u
     for k in range(ctx.pick(24, 120) * scale):
@@ -494,6 +582,10 @@ def gen_specs(ctx, scale):
         s = {'cls': cls, 'Ls': Ls, 'Lu': Lu, 'order': order, 'custom_perm': None, 'bc': ['periodic', -1],
              'bc_MPS': 'infinite', 'wrap': {'kind': 'helical', 'N_unit_cells': nuc}, 'kind': 'helical'}
         s['queries'] = make_queries(rng, Ls, Lu, ncells * Lu, True, 4, 2)
+        # HelicalLattice.ordering: the only freedom is the order inside the unit cell
+        us = list(range(Lu))
+        rng.shuffle(us)
+        s['queries']['orderings'] = ['Cstyle', ['grouped', [us]]]
         specs.append(s)
     # the predefined pairs of the wrapped lattices are compared with the site positions as well
     for s in specs:
@@ -511,7 +603,62 @@ def gen_specs(ctx, scale):
         s['queries'] = make_queries(rng, Ls, Lu, N, False, 9, 0)
         s['queries']['geometry'] = True
         specs.append(s)
+    specs += gen_geometry_options(ctx, scale, fam)
     return specs
+
+
+def gen_geometry_options(ctx, scale, fam):
+    """(a) generic Lattice with its own basis and unit cell positions, whose pairs are the shells found by
+    find_coupling_pairs (the documented use); (b) lattices with position_disorder: position() and the distance() arrays
+    of every predefined pair against the positions of the coupled sites; open and periodic directions, finite and
+    infinite MPS, also under an IrregularLattice with removed sites."""
+    rng = ctx.rng
+    out = []
+    for k in range(ctx.pick(10, 40) * scale):
+        Ls = rng.choice([[3], [2, 2], [3, 2], [2, 3]])
+        d = len(Ls)
+        Lu = rng.choice([1, 2, 2, 3])
+        if d == 1:
+            basis = [[round(rng.uniform(1.0, 1.3), 3), 0.0]]
+        else:
+            basis = [[1.0, 0.0], [round(rng.uniform(-0.4, 0.4), 3), round(rng.uniform(1.0, 1.3), 3)]]
+        positions = [[round(rng.uniform(0, 0.55), 3), round(rng.uniform(0, 0.55), 3)] for _ in range(Lu)]
+        s = {'cls': 'Lattice', 'Ls': Ls, 'Lu': Lu, 'order': rng.choice(['default', 'snake', 'Fstyle']), 'custom_perm': None,
+             'bc': ['open'] * d, 'bc_MPS': 'finite', 'wrap': None, 'kind': 'geometry',
+             'geom': {'basis': basis, 'positions': positions}}
+        s['queries'] = make_queries(rng, Ls, Lu, int(math.prod(Ls)) * Lu, False, 9, 0)
+        s['queries']['geometry'] = True
+        s['queries']['max_dx'], s['queries']['cutoff'], s['queries']['fcp_defaults'] = 2, rng.choice([None, 1.503]), False
+        out.append(s)
+    # SimpleLattice: the position of its single site given as one vector (Chain: embedded into the plane by a 2D basis vector)
+    for (cls, Ls) in (('Chain', [3]), ('Chain', [4]), ('Square', [2, 3]), ('Triangular', [3, 2]), ('Square', [3, 3]))[: ctx.pick(3, 5)]:
+        geom = {'positions': [round(rng.uniform(0, 0.5), 3), round(rng.uniform(0, 0.5), 3)]}
+        if cls == 'Chain':
+            geom['basis'] = [[1.0, 0.0]]
+        s = {'cls': cls, 'Ls': Ls, 'Lu': 1, 'order': 'default', 'custom_perm': None, 'bc': ['open'] * len(Ls), 'bc_MPS': 'finite',
+             'wrap': None, 'kind': 'geometry', 'geom': geom}
+        s['queries'] = make_queries(rng, Ls, 1, int(math.prod(Ls)), False, 9, 0)
+        s['queries']['geometry'] = True
+        s['queries']['max_dx'], s['queries']['cutoff'], s['queries']['fcp_defaults'] = 2, None, False
+        out.append(s)
+    cands = [f for f in fam if f[0] not in ('Lattice', 'Trivial') and int(math.prod(f[1])) * f[2] <= 27]
+    for k in range(ctx.pick(24, 120) * scale):
+        cls, Ls, Lu = cands[k % len(cands)] if k < len(cands) else rng.choice(cands)
+        d = len(Ls)
+        inf = k % 3 == 0
+        bc = ['periodic' if inf else rng.choice(['open', 'periodic'])] + [rng.choice(['open', 'periodic']) for _ in range(d - 1)]
+        s = {'cls': cls, 'Ls': Ls, 'Lu': Lu, 'order': rng.choice(named_orders(cls, d, Lu, rng)), 'custom_perm': None,
+             'bc': bc, 'bc_MPS': 'infinite' if inf else 'finite', 'wrap': None, 'kind': 'disorder',
+             'opts': {'disorder_seed': rng.randrange(10 ** 6)}}
+        N = int(math.prod(Ls)) * Lu
+        if k % 4 == 1 and N > 2:
+            allsites = [list(x) + [u] for x in itertools.product(*[range(L) for L in Ls]) for u in range(Lu)]
+            s['wrap'] = {'kind': 'irregular', 'remove': rng.sample(allsites, rng.randint(1, 2)), 'add': None, 'n_add_uc': 0}
+            N -= len(s['wrap']['remove'])
+        s['queries'] = make_queries(rng, Ls, Lu, N, inf, 3, 1)
+        s['queries']['geometry'] = True
+        out.append(s)
+    return out
 
 
 # ----------------------------------------------------------------------------------------------------
@@ -661,6 +808,11 @@ def expected_full_order(spec, res, eff=None):
     eff = eff or effective(spec)
     Ls, Lu = spec['Ls'], spec['Lu']
     w = spec['wrap']
+    if spec.get('reorder') is not None:
+        spec = dict(spec, order=spec['reorder'], custom_perm=None, reorder=None, other_order=True)
+    if (spec.get('other_order') and w is not None and w['kind'] == 'irregular' and w.get('add')
+            and any(mp is None for mp in w['add'][1])):
+        return None           # (see ctx.assumptions: position of add=(.., [None]) sites under ordering(another order))
     if w is not None and w['kind'] == 'helical':
         # the helix runs C-style through the (possibly enlarged) regular lattice: its first N_unit_cells cells
         base = expected_order(spec['cls'], list(eff['Ls']) + [Lu], spec['order'])
@@ -725,6 +877,8 @@ MK_SHIFT_OPEN_MULTI = 'C19:possible_multi_couplings:bc_shift+open-x:rows-missing
 MK_MASKED = 'C19:mps2lat_values_masked:outside-unit-cell:x0!=i*N_rings//N_sites'
 MK_GROUPED_1D = 'C19:get_order_grouped:1D-lattice-TypeError'
 MK_SHIFT_OPEN = 'C19:possible_couplings:bc_shift+open-x:|dx0|>=L0-dropped'
+MK_ORDERING_PERM = 'C19:IrregularLattice.ordering:leaves-_perm-of-regular-order'
+MK_SITES_CACHE = 'C19:Irregular/HelicalLattice.order-setter:mps_sites-cache-not-reset'
 
 
 def grouped_1d(order, d):
@@ -753,15 +907,18 @@ def oracle_one(args):
     eff = effective(spec)
     Ls = eff['Ls']                 # the shape documented for the (transformed) lattice
     d = len(Ls)
-    label = '%s%s %s%s bc=%s/%s order=%s%s%s' % (spec['cls'], spec['Ls'], kind,
-                                                 ('[%s]' % ','.join('%s=%s' % kv for kv in sorted(w.items()) if kv[0] != 'kind')) if w else '',
-                                                 spec['bc'], spec['bc_MPS'], spec['order'],
-                                                 ' +perm' if spec.get('custom_perm') else '', transform_text(tr))
+    label = '%s%s %s%s bc=%r/%s order=%s%s%s%s%s' % (spec['cls'], spec['Ls'], kind,
+                                                     ('[%s]' % ','.join('%s=%s' % kv for kv in sorted(w.items()) if kv[0] != 'kind')) if w else '',
+                                                     spec['bc'], spec['bc_MPS'], spec['order'],
+                                                     ' +perm' if spec.get('custom_perm') else '',
+                                                     (' then lat.order = lat.ordering(%s)' % (spec['reorder'],)) if spec.get('reorder') is not None else '',
+                                                     ' (bc set again from its getter)' if (spec.get('opts') or {}).get('bc_roundtrip') else '',
+                                                     transform_text(tr))
     if 'runner_error' in res:
         return counts, [('RUNNER ' + res['runner_error'][-300:], 'runner')], label
     if 'build_error' in res:
         mk = 'C19:build'
-        if grouped_1d(spec['order'], d) and 'numpy.float64' in res['build_error']:
+        if grouped_1d(order_of(spec), d) and 'numpy.float64' in res['build_error']:
             mk = MK_GROUPED_1D
         return counts, [('constructing the lattice raised %s' % res['build_error'], mk)], label
     Lu = res['shape'][-1]
@@ -779,6 +936,14 @@ def oracle_one(args):
         fail('N_cells = %d, expected %d' % (res['N_cells'], ncells), 'C19:N_cells')
     if res['bc_MPS'] != eff['bc_MPS']:
         fail('bc_MPS = %r, documented: %r' % (res['bc_MPS'], eff['bc_MPS']), 'C19:bc_MPS')
+    # the boundary conditions as the lattice reports them: .boundary_conditions (getter), .bc (True = open), .bc_shift
+    if res['boundary_conditions'] != eff['bc']:
+        fail('boundary_conditions = %r after giving bc=%r, documented: %r' % (res['boundary_conditions'], spec['bc'], eff['bc']), 'C19:boundary_conditions')
+    want_shift = [b if isinstance(b, int) else 0 for b in eff['bc'][1:]]
+    if res['bc_open'] != [b == 'open' for b in eff['bc']] or (res['bc_shift'] or [0] * (d - 1)) != want_shift:
+        fail('bc = %r, bc_shift = %r after giving bc=%r' % (res['bc_open'], res['bc_shift'], spec['bc']), 'C19:bc-attributes')
+    if res['bc_shift'] is not None and not any(res['bc_shift']):
+        fail('bc_shift = %r: documented as None when no direction is shifted' % (res['bc_shift'],), 'C19:bc-attributes')
     # ---- the order: distinct valid lattice indices; all of them for a regular lattice
     rows = [tuple(r) for r in order]
     box_ok = all(len(r) == d + 1 and all(0 <= r[a] < res['shape'][a] for a in range(d + 1)) for r in rows)
@@ -799,12 +964,14 @@ def oracle_one(args):
         unusable = True
     exp = expected_full_order(spec, res, eff)
     if exp is not None and [list(r) for r in exp] != order:
-        fail('order differs from the documented one for %r%s: got %s expected %s' % (spec['order'], transform_text(tr), order[:8], exp[:8]),
-             'C19:order:' + (spec['order'] if isinstance(spec['order'], str) else spec['order'][0]))
+        fail('order differs from the documented one for %r%s: got %s expected %s' % (order_of(spec), transform_text(tr), order[:8], exp[:8]),
+             'C19:order:' + (order_of(spec) if isinstance(order_of(spec), str) else order_of(spec)[0]))
         unusable = True
     counts.append(('order', [label], N > 1, None))
-    if w is None and spec.get('custom_perm') is None and not tr:
-        for p in check_order_semantics(spec['cls'], res['shape'], spec['order'], order):
+    if spec.get('reorder') is not None:
+        counts.append(('order-setter', [label], N > 1, None))
+    if w is None and (spec.get('custom_perm') is None or spec.get('reorder') is not None) and not tr:
+        for p in check_order_semantics(spec['cls'], res['shape'], order_of(spec), order):
             fail(p)
             unusable = True
     # extra orderings evaluated through lat.ordering()
@@ -814,7 +981,22 @@ def oracle_one(args):
                  MK_GROUPED_1D if (grouped_1d(o, d) and 'numpy.float64' in rws['error']) else None)
             unusable = True
             continue
-        if kind != 'regular' or tr:
+        if tr:
+            continue
+        if kind != 'regular':
+            # ordering() of a MultiSpecies / Irregular / Helical lattice: the order such a lattice would have been given
+            if wk is None:
+                continue
+            e = expected_full_order(dict(spec, order=o, custom_perm=None, reorder=None, other_order=True), res, eff)
+            if e is not None and e != rws:
+                fail('%s.ordering(%r) differs from the documented order: got %s expected %s'
+                     % ({'multi': 'MultiSpeciesLattice', 'irregular': 'IrregularLattice', 'helical': 'HelicalLattice'}[wk], o, rws[:8], e[:8]),
+                     'C19:ordering-wrapped:' + wk)
+                unusable = True
+            if sorted(map(tuple, rws)) != sorted(map(tuple, order)):
+                fail('ordering(%r) of the %s lattice does not list the sites of the lattice' % (o, wk), 'C19:ordering-wrapped:' + wk)
+                unusable = True
+            counts.append(('ordering-wrapped', [label, o], e is not None, None))
             continue
         nf = len(fails)
         e = expected_order(spec['cls'], res['shape'], o)
@@ -827,6 +1009,12 @@ def oracle_one(args):
             fail('ordering(%r): %s' % (o, p))
         unusable = unusable or len(fails) > nf
         counts.append(('ordering', [spec['cls'], res['shape'], o], True, None))
+    if res.get('ordering_changed_perm'):
+        pb, pa = res['ordering_changed_perm']
+        irr = wk == 'irregular' and (w.get('remove') or None) is not None and sorted(pa) == list(range(len(pa)))
+        fail('lat.ordering(%s) is a query, but afterwards the table behind lat2mps_idx (lat._perm) is %s instead of %s: lat2mps_idx and '
+             'possible_couplings of the lattice are wrong from then on' % (spec['queries'].get('orderings'), pa[:10], pb[:10]),
+             MK_ORDERING_PERM if irr else 'C19:ordering-changes-lattice')
     if unusable:
         return counts, fails, label
     # ---- geometry object (built on the documented shape, boundary conditions and site count)
@@ -910,12 +1098,19 @@ def oracle_one(args):
         elif all(c > 0 for c in cs) and any(g[2] != x[2] for g, x in zip(got, e)):
             fail('possible_couplings(u1=%d,u2=%d,dx=%s): lat_indices %s, lower-left corners are %s'
                  % (u1, u2, dx, [g[2] for g in got][:6], [x[2] for x in e][:6]), 'C19:lat_indices')
-        if 's_v' in r and wk != 'helical':
-            want = sorted((i, j, 1 + flat_c(c, cs)) for i, j, c in e)
+        if 's_v' in r and gp == ep and any(c == 0 for c in cs):
+            if r['s_i'] or r['s_j'] or r['s_v']:
+                fail('possible_couplings(u1=%d,u2=%d,dx=%s, strength=2.5) = %s although the coupling shape %s has no entry'
+                     % (u1, u2, dx, (r['s_i'], r['s_j'], r['s_v']), cs), 'C19:strength')
+        if 's_v' in r and gp == ep and all(c > 0 for c in cs):
+            # strength given as full array / array containing zeros (those couplings are documented to be dropped) / scalar
+            sval = STRENGTH_FORMS[r.get('spat', 0)]
+            want = sorted((i, j, sval(flat_c(c, cs))) for i, j, c in e if sval(flat_c(c, cs)) != 0)
             gots = sorted(zip(r['s_i'], r['s_j'], r['s_v']))
             if want != gots:
-                fail('possible_couplings(..., strength): (i, j, strength) = %s, expected strength[corner]: %s' % (gots[:6], want[:6]),
-                     'C19:strength')
+                fail('possible_couplings(u1=%d,u2=%d,dx=%s, strength=%s): (i, j, strength) = %s, expected strength[corner] of the non-zero '
+                     'entries: %s' % (u1, u2, dx, STRENGTH_TEXT[r.get('spat', 0)], gots[:6], want[:6]), 'C19:strength')
+            counts.append(('strength', [label, u1, u2, dx], len(want) > 0, None))
         counts.append(('couplings', [label, u1, u2, dx], nontriv,
                        {'lattice': label, 'u1': u1, 'u2': u2, 'dx': dx, 'pairs': gp[:6]} if nontriv and any(dx) else None))
     for ops, r in zip(q['multi'], res['multi']):
@@ -940,12 +1135,39 @@ def oracle_one(args):
         elif got != e:
             fail('possible_multi_couplings(%s): lat_indices %s, corners %s' % (ops, [g[1] for g in got][:6], [x[1] for x in e][:6]),
                  'C19:multi-lat_indices')
-        if 's_v' in r and wk != 'helical' and [g[0] for g in got] == [x[0] for x in e]:
-            want = sorted((i, 1 + flat_c(c, cs)) for i, c in e)
+        lo_ops = [min(o[0][a] for o in ops) for a in range(d)]
+        if 'mshape' in r and (r['mshape'] != cs or r['mshift'] != lo_ops):
+            fail('multi_coupling_shape(%s) = (%s, %s), documented: shape %s and the lower left corner %s of the box spanned by the dx'
+                 % ([o[0] for o in ops], r['mshape'], r['mshift'], cs, lo_ops), 'C19:multi_coupling_shape')
+        if 's_v' in r and got == e and any(c == 0 for c in cs) and (r['s_ijkl'] or r['s_v']):
+            fail('possible_multi_couplings(%s, strength=2.5) returns rows although the coupling shape %s has no entry' % (ops, cs), 'C19:multi-strength')
+        if 's_v' in r and got == e and all(c > 0 for c in cs):
+            sval = STRENGTH_FORMS[r.get('spat', 0)]
+            want = sorted((i, sval(flat_c(c, cs))) for i, c in e if sval(flat_c(c, cs)) != 0)
             gots = sorted((tuple(a), v) for a, v in zip(r['s_ijkl'], r['s_v']))
             if want != gots:
-                fail('possible_multi_couplings(..., strength) wrong strengths', 'C19:multi-strength')
+                fail('possible_multi_couplings(%s, strength=%s): (ijkl, strength) = %s, expected %s'
+                     % (ops, STRENGTH_TEXT[r.get('spat', 0)], gots[:4], want[:4]), 'C19:multi-strength')
         counts.append(('multi', [label, ops], len(e) > 0, None))
+    for (km, kc) in q.get('multi_from_c', []):
+        if km >= len(res['multi']) or kc >= len(res['couplings']):
+            continue
+        rm, rc = res['multi'][km], res['couplings'][kc]
+        if 'error' in rm or 'error' in rc:
+            continue
+        if eff['bc'][0] == 'open' and any(isinstance(b, int) and b != 0 for b in eff['bc']):
+            continue              # known findings F19.2 / F19.4 (reported by the brute-force comparison above)
+        pm = sorted(tuple(x) for x in rm['ijkl'])
+        pcs = sorted(zip(rc['i'], rc['j']))
+        if pm != pcs or list(rm['shape']) != list(rc['shape']):
+            fail('possible_couplings(%s) and possible_multi_couplings(%s) enumerate different couplings: %s (shape %s) vs %s (shape %s)'
+                 % (q['couplings'][kc], q['multi'][km], pcs[:6], rc['shape'], pm[:6], rm['shape']), 'C19:couplings-vs-multi')
+        elif (not any(isinstance(b, int) and b != 0 for b in eff['bc'])
+              and sorted((tuple(a), tuple(b)) for a, b in zip(rm['ijkl'], rm['lat'])) != sorted(((i, j), tuple(li)) for i, j, li in zip(rc['i'], rc['j'], rc['lat'] or []))):
+            # (with a shifted boundary the two functions label the box differently when the first site itself wraps: not compared)
+            fail('possible_couplings(%s) and possible_multi_couplings(%s) give different lat_indices' % (q['couplings'][kc], q['multi'][km]),
+                 'C19:couplings-vs-multi')
+        counts.append(('couplings-vs-multi', [label, q['couplings'][kc]], len(pm) > 0, None))
     # ---- mps2lat_values
     if full_sites:
         v = res['values']
@@ -1026,6 +1248,7 @@ def oracle_one(args):
                 fail('mps2lat_values_masked(mps_inds=%s, include_u=%s) does not put each value at its lattice index' % (inds, r['incl']),
                      MK_MASKED if (inf and outside and not x0_slowest) else 'C19:masked')
             counts.append(('values_masked', [label, inds, r['incl']], True, None))
+    extras_checks(spec, eff, res, geo, fail, counts, label, full_sites)
     # ---- geometry of the predefined pairs
     if q.get('geometry'):
         g = res.get('geometry')
@@ -1034,6 +1257,285 @@ def oracle_one(args):
         else:
             geometry_checks(spec, eff, res, g, geo, fail, counts, label)
     return counts, fails, label
+
+
+STRENGTH_FORMS = {0: lambda f: float(f + 1), 1: lambda f: float(f % 3), 2: lambda f: 2.5}
+STRENGTH_TEXT = {0: 'arange(1, n+1).reshape(coupling_shape)', 1: '(arange(n) % 3).reshape(coupling_shape)', 2: '2.5'}
+
+
+def nested_get(a, idx):
+    for c in idx:
+        a = a[c]
+    return a
+
+
+def count_unmasked(mask):
+    n = 0
+    stack = [mask]
+    while stack:
+        a = stack.pop()
+        if isinstance(a, list):
+            stack.extend(a)
+        else:
+            n += (a == 0)
+    return n
+
+
+def extras_checks(spec, eff, res, geo, fail, counts, label, full_sites):
+    """Other documented argument forms of the queries, results used as arguments of the inverse map, repeated queries and the
+    state of the lattice object after all queries."""
+    ex = res.get('extras') or {}
+    q = spec['queries']
+    w = spec['wrap']
+    wk = w['kind'] if w else None
+    N = eff['N']
+    order = res['order']
+    Lu = res['shape'][-1]
+    d = len(eff['Ls'])
+    inf = eff['inf']
+    m2l, l2m = res['mps2lat'], res['lat2mps']
+    mi, li = q['mps_idx'], q['lat_idx']
+    step_m, step_l = max(1, len(mi) // 6), max(1, len(li) // 6)
+
+    def err(name, v):
+        if isinstance(v, dict) and 'error' in v:
+            fail('%s raised %s' % (name, v['error']), 'C19:extras-raise:' + name)
+            return True
+        return v is None
+    # ---- the lattice object is the same after the queries as before (the returned arrays were overwritten by the runner)
+    s0, s1 = res.get('snap0'), res.get('snap1')
+    if not err('reading the attributes of the lattice', s0) and not err('reading the attributes of the lattice', s1):
+        for key in sorted(s0):
+            if s0[key] != s1.get(key):
+                what = {'order': 'lat.order', 'perm': 'lat._perm (lat2mps_idx table)', 'fix_u': 'the mps_idx_fix_u tables',
+                        '_mps2lat_vals_idx': 'the mps2lat_values table', 'reg_order': 'regular_lattice.order'}.get(key, 'lat.' + key)
+                fail('%s was changed by the queries (index maps, couplings, values; returned arrays overwritten afterwards): before %s, after %s'
+                     % (what, str(s0[key])[:160], str(s1.get(key))[:160]), 'C19:object-changed-by-queries:' + key)
+        if s0['order'] != order:
+            fail('lat.order read twice gives different values', 'C19:object-changed-by-queries:order')
+        counts.append(('object-unchanged', [label], True, None))
+    if res.get('l2m_arg_changed'):
+        fail('lat2mps_idx changed the index array given as its argument', 'C19:lat2mps-argument-changed')
+    rp = ex.get('repeat')
+    if not err('repeating the queries', rp):
+        for key, first in (('mps2lat', m2l), ('mps2lat_single', res.get('mps2lat_single')), ('lat2mps', l2m)):
+            if key in rp and rp[key] != first:
+                k = next((n for n, (a, b) in enumerate(zip(rp[key], first)) if a != b), 0)
+                arg = (mi[k] if key == 'mps2lat' else mi[::step_m][k] if key == 'mps2lat_single' else li[k])
+                fail('%s(%s) = %s in the first call and %s when the same query is repeated on the same lattice'
+                     % (key.replace('_single', '').replace('mps2lat', 'mps2lat_idx').replace('lat2mps', 'lat2mps_idx'), arg, first[k] if k < len(first) else None,
+                        rp[key][k] if k < len(rp[key]) else None), 'C19:repeated-query-differs:' + key)
+        cq = {(u1, u2, tuple(dx)): r for (u1, u2, dx), r in zip(q['couplings'], res['couplings'])}
+        for (u1, u2, dx), i2, j2 in rp.get('couplings', []):
+            r = cq.get((u1, u2, tuple(dx)))
+            if r is not None and 'error' not in r and (r['i'] != i2 or r['j'] != j2):
+                fail('possible_couplings(%d, %d, %s) = %s first and %s when repeated' % (u1, u2, dx, list(zip(r['i'], r['j']))[:6], list(zip(i2, j2))[:6]),
+                     'C19:repeated-query-differs:couplings')
+        for ops, r, again in zip(q['multi'], res['multi'], rp.get('multi', [])):
+            if 'error' not in r and r['ijkl'] != again:
+                fail('possible_multi_couplings(%s) differs when repeated' % (ops,), 'C19:repeated-query-differs:multi')
+        counts.append(('repeated-queries', [label], True, None))
+    # ---- argument forms of the index maps
+    fm = ex.get('forms_m2l')
+    if not err('mps2lat_idx(list / 2D array / numpy integer)', fm):
+        if fm['list'] != m2l:
+            fail('mps2lat_idx(list of int) differs from mps2lat_idx(array): %s vs %s' % (fm['list'][:5], m2l[:5]), 'C19:mps2lat-forms')
+        h = len(mi) // 2
+        if h and (fm['2d'] != [m2l[:h], m2l[h:2 * h]]):
+            fail('mps2lat_idx of a 2D array of shape (2, %d) is not the array of the lattice indices of its entries' % h, 'C19:mps2lat-forms')
+        if fm['npint'] != [m2l[k] for k in range(0, len(m2l), step_m)]:
+            fail('mps2lat_idx(numpy integer) differs from mps2lat_idx(array)', 'C19:mps2lat-forms')
+        counts.append(('index-forms', [label, 'mps2lat'], True, None))
+    fl = ex.get('forms_l2m')
+    if not err('lat2mps_idx(tuple / 3D array / nested list)', fl):
+        if fl['tuple'] != [l2m[k] for k in range(0, len(l2m), step_l)]:
+            fail('lat2mps_idx(tuple) differs from lat2mps_idx(array)', 'C19:lat2mps-forms')
+        h = len(li) // 2
+        if h and fl['3d'] != [l2m[:h], l2m[h:2 * h]]:
+            fail('lat2mps_idx of an index array of shape (2, %d, %d) is not the array of the MPS indices of its rows' % (h, d + 1), 'C19:lat2mps-forms')
+        if fl['nested_list'] != l2m[:7]:
+            fail('lat2mps_idx(list of lists) differs from lat2mps_idx(array)', 'C19:lat2mps-forms')
+        counts.append(('index-forms', [label, 'lat2mps'], True, None))
+    rt = ex.get('roundtrip')
+    if mi and not err('lat2mps_idx(mps2lat_idx(i))', rt):
+        if rt['l2m_of_m2l'] != mi:
+            k = next(n for n, (a, b) in enumerate(zip(rt['l2m_of_m2l'], mi)) if a != b)
+            fail('lat2mps_idx(mps2lat_idx(i)) = %d for i = %d (the array returned by mps2lat_idx given to lat2mps_idx)' % (rt['l2m_of_m2l'][k], mi[k]),
+                 'C19:roundtrip')
+        elif rt['m2l_again'] != m2l:
+            fail('mps2lat_idx(lat2mps_idx(mps2lat_idx(i))) differs from mps2lat_idx(i)', 'C19:roundtrip')
+        counts.append(('roundtrip-direct', [label], N > 1, None))
+    fd, lfn = ex.get('fix_u_default'), ex.get('lat_fix_u_none')
+    if not err('mps_idx_fix_u()', fd) and fd != res['fix_u_none']:
+        fail('mps_idx_fix_u() differs from mps_idx_fix_u(None)', 'C19:fix_u')
+    if not err('mps_lat_idx_fix_u()', lfn):
+        if sorted(lfn[0]) != list(range(N)) or any(0 <= k < N and list(order[k][:-1]) != row for k, row in zip(lfn[0], lfn[1])) or len(lfn[1]) != len(lfn[0]):
+            fail('mps_lat_idx_fix_u(None) = %s: not all MPS indices with the lattice indices (without u) of their sites' % (lfn,), 'C19:fix_u')
+    # ---- the sites of the MPS: site(i) is unit_cell[u] of the lattice index of i (also after the order was set again / the unit cell enlarged)
+    ucl, ms = res.get('uc_labels'), res.get('mps_sites')
+    if not err('unit_cell', ucl) and not err('mps_sites()', ms):
+        want = [ucl[r[-1]] if r[-1] < len(ucl) else None for r in order]
+        # IrregularLattice / HelicalLattice whose order was set again (ordering() + setter, enlarge_mps_unit_cell) after
+        # mps_sites() had been called: known finding when the list is exactly the one from before
+        tr = spec.get('transform')
+        before = (res.get('base') or {}).get('mps_sites') if tr else (res.get('probes') or {}).get('pre_reorder_sites')
+        stale = (wk in ('irregular', 'helical') and (spec.get('reorder') is not None or (tr and eff['factor'] > 1))
+                 and before is not None and ms == before)
+        mk = MK_SITES_CACHE if stale else 'C19:mps_sites'
+        if ms != want:
+            fail('mps_sites() = %s (%d sites), but the sites of the unit cell at the lattice indices of order are %s (%d sites)%s'
+                 % (ms[:8], len(ms), want[:8], len(want), ' - the list is the one cached before the order of the lattice changed' if stale else ''), mk)
+        else:
+            si = res.get('site_i')
+            if not err('site(i)', si):
+                for i, lab in si:
+                    if lab != want[i]:
+                        fail('site(%d) = %r, the site at mps2lat_idx(%d) = %s is %r' % (i, lab, i, order[i], want[i]), mk)
+            if rp and isinstance(rp, dict) and rp.get('mps_sites') not in (None, ms):
+                fail('mps_sites() differs when called again', 'C19:mps_sites')
+        for u, lst in enumerate(res['fix_u']):
+            if ms == want and any(ms[i] != ucl[u] for i in lst):
+                fail('mps_idx_fix_u(%d) contains an MPS index whose site(i) is not unit_cell[%d]' % (u, u), 'C19:fix_u')
+        us = ex.get('unit_cell_set')
+        if not err('assigning lat.unit_cell', us):
+            want_v = ['v%d' % r[-1] for r in order]
+            if us['new'] != want_v or us['restored'] != want:
+                fail('after lat.unit_cell = [...] mps_sites() = %s, the sites of the new unit cell along the order are %s (restored: %s)'
+                     % (us['new'][:8], want_v[:8], us['restored'][:8]), 'C19:unit_cell-setter')
+        counts.append(('mps_sites', [label], len(set(want)) > 1, None))
+    ba = res.get('base_after')
+    if ba:
+        b0 = res['base']
+        for key in ('Ls', 'N_sites', 'order', 'bc_MPS', 'boundary_conditions', 'mps_sites'):
+            if b0.get(key) != ba.get(key):
+                fail('extract_segment returns a copy, but %s of the lattice it was called on changed from %s to %s'
+                     % (key, str(b0.get(key))[:120], str(ba.get(key))[:120]), 'C19:extract_segment-changes-self:' + key)
+        counts.append(('extract_segment-self-unchanged', [label], True, None))
+    # ---- mps2lat_values: other forms of `axes`, u together with several axes
+    vf = ex.get('values_forms')
+    simple = spec['cls'] in ('Chain', 'Square', 'Triangular') and wk != 'multi'
+    if full_sites and vf is not None and not err('mps2lat_values(A, axes=(0,) / 1 / -1)', vf):
+        for name in ('ax0', 'ax1', 'axm1'):
+            v = vf[name]
+            bad = None
+            for k, r in enumerate(order):
+                idx = list(r[:-1] if simple else r)
+                for j in range(3):
+                    try:
+                        a = nested_get(v, idx + [j]) if name == 'ax0' else nested_get(v, [j] + idx)
+                    except (IndexError, TypeError):
+                        a = None
+                    if a != k * 10 + j:
+                        bad = (k, r, j, a)
+            if bad:
+                fail('mps2lat_values(A, axes=%s) for a 2D array: the value %d of MPS site %d (column %d) is not at its lattice index %s (found %s)'
+                     % ({'ax0': '(0,)', 'ax1': '1', 'axm1': '-1'}[name], bad[0] * 10 + bad[2], bad[0], bad[2], bad[1], bad[3]), 'C19:values')
+        if 'u2' in vf:
+            u = 0 if simple else vf['u2']['u']
+            cells = [r[:-1] for r in order if r[-1] == u]
+            bad = False
+            for k1, c1 in enumerate(cells):
+                for k2, c2 in enumerate(cells):
+                    try:
+                        bad = bad or nested_get(vf['u2']['val'], list(c1) + list(c2)) != k1 * 100 + k2
+                    except (IndexError, TypeError):
+                        bad = True
+            if bad:
+                fail('mps2lat_values(B, axes=[0, 1], u=%d) misplaces values' % u, 'C19:values')
+        counts.append(('values-forms', [label], N > 1, None))
+    # ---- mps2lat_values_masked: several axes, defaults
+    mf = ex.get('masked_forms')
+    if not err('mps2lat_values_masked(several axes / defaults)', mf):
+        masked_forms_checks(spec, res, geo, mf, Lu, N, inf, fail, counts, label)
+    # ---- MultiSpeciesLattice index maps
+    sm = ex.get('species_maps')
+    if sm is not None and not err('self_u_to_simple_u / self_u_to_species_idx / simple_u_to_species_u', sm):
+        n = w['n_species']
+        ok = sm['N_species'] == n and sm['simple_Lu'] * n == Lu and len(sm['rows']) == Lu
+        seen = set()
+        for u, su, sp, back in sm['rows']:
+            ok = ok and back == u and 0 <= su < sm['simple_Lu'] and 0 <= sp < n and (su, sp) not in seen
+            seen.add((su, sp))
+            # the species are told apart by their site (dimension sp + 2), the simple site by its position
+            ok = ok and sm['dims'][u] == sp + 2 and max(abs(a - b) for a, b in zip(sm['uc_pos'][u], sm['simple_uc_pos'][su])) < 1e-12
+        ok = ok and sm['arr'] == [[r[1] for r in sm['rows']], [r[2] for r in sm['rows']]]
+        if not ok:
+            fail('MultiSpeciesLattice: self_u_to_simple_u / self_u_to_species_idx / simple_u_to_species_u = %s are not the bijection '
+                 'u <-> (site of the simple lattice, species) of the unit cell (sites %s)' % (sm['rows'], sm['dims']), 'C19:species-maps')
+        counts.append(('species-maps', [label], True, None))
+    # ---- with_grouped_sites: a TrivialLattice over the given sites with the same bc_MPS and width
+    gr = ex.get('grouped')
+    if not err('with_grouped_sites', gr):
+        m = max(1, (N + 1) // 2)
+        names = ['g%d' % k for k in range(m)]
+        if (gr['cls'] != 'TrivialLattice' or gr['shape'] != [1, m] or gr['N_sites'] != m or gr['bc_MPS'] != res['bc_MPS'] or gr['sites'] != names
+                or gr['order'] != [[0, k] for k in range(m)] or gr['m2l'] != gr['order'] or gr['l2m'] != list(range(m)) or gr['width'] != gr['own_width']):
+            fail('with_grouped_sites(%d sites) = %s: not the trivial lattice of these sites with bc_MPS %r and mps_unit_cell_width %r'
+                 % (m, gr, res['bc_MPS'], gr['own_width']), 'C19:with_grouped_sites')
+        counts.append(('with_grouped_sites', [label], m > 1, None))
+
+
+def masked_forms_checks(spec, res, geo, mf, Lu, N, inf, fail, counts, label):
+    """mps2lat_values_masked docstring: res_A[..., x0, x1, (u), ...] = A[..., j, ...] for the j-th entry of mps_inds of that
+    axis, all other entries masked; include_u defaults to len(unit_cell) > 1, mps_inds to arange(A.shape[ax]), axes to -1."""
+    q = spec['queries']
+
+    def key(i, incl):
+        s = geo.site(i)
+        return None if s is None else tuple(s if incl else s[:-1])
+    dflt = Lu > 1
+    m = mf.get('multi')
+    if m:
+        i1, i2 = q['masked'][0], q['masked'][1]
+        if m['var'] == 3:
+            i1 = i2 = list(range(min(N, 3)))
+        incl1, incl2 = {0: (True, False), 1: (True, False), 2: (dflt, dflt), 3: (dflt, dflt)}[m['var']]
+        k1 = [key(i, incl1) for i in i1]
+        k2 = [key(i, incl2) for i in i2]
+        if None not in k1 and None not in k2 and len(set(k1)) == len(k1) and len(set(k2)) == len(k2):
+            ok = count_unmasked(m['mask']) == len(i1) * 2 * len(i2)
+            bad = None
+            for a, ka in zip(i1, k1):
+                for mm in range(2):
+                    for b, kb in zip(i2, k2):
+                        idx = list(ka) + [mm] + list(kb)
+                        try:
+                            val, msk = nested_get(m['data'], idx), nested_get(m['mask'], idx)
+                        except (IndexError, TypeError):
+                            val, msk = None, 1
+                        if val != a * 1000 + mm * 500000 + b + 100 or msk != 0:
+                            bad = (a, mm, b, idx, val)
+            if bad or not ok:
+                fail('mps2lat_values_masked(A[%d,2,%d], axes=%s, mps_inds=%s, include_u=%s): %s'
+                     % (len(i1), len(i2), {0: '[0, 2]', 1: '[-1, 0]', 2: '(0, 2)', 3: '[0, 2]'}[m['var']],
+                        {0: '[i1, i2]', 1: '[i2, i1]', 2: '[i1, i2]', 3: 'default'}[m['var']],
+                        {0: '[True, False]', 1: '[False, True]', 2: 'default', 3: 'default'}[m['var']],
+                        ('A[i1=%d, %d, i2=%d] is not at %s (found %s)' % bad) if bad else 'wrong number of unmasked entries'),
+                     'C19:masked-multi-axes')
+            counts.append(('values_masked-axes', [label, m['var']], True, None))
+    for name, with_first in (('default', False), ('default_ax1', True)):
+        r = mf.get(name)
+        if not r:
+            continue
+        incl = True if with_first else dflt
+        ks = [key(i, incl) for i in range(r['k'])]
+        if None in ks or len(set(ks)) != len(ks):
+            continue
+        ok = count_unmasked(r['mask']) == r['k'] * (2 if with_first else 1)
+        for rowi in range(2 if with_first else 1):
+            for i, kk in enumerate(ks):
+                idx = ([rowi] if with_first else []) + list(kk)
+                try:
+                    val, msk = nested_get(r['data'], idx), nested_get(r['mask'], idx)
+                except (IndexError, TypeError):
+                    val, msk = None, 1
+                want = (8000 + rowi * r['k'] + i) if with_first else 7000 + i
+                ok = ok and val == want and msk == 0
+        if not ok:
+            fail('mps2lat_values_masked(A%s) with default mps_inds%s does not put A[%sj] at the lattice index of MPS site j'
+                 % (', axes=1, include_u=True' if with_first else '', '' if with_first else ', axes and include_u', ':, ' if with_first else ''),
+                 'C19:masked-defaults')
+        counts.append(('values_masked-defaults', [label, name], True, None))
 
 
 def flat_c(c, cs):
@@ -1145,15 +1647,111 @@ def geometry_checks(spec, eff, res, g, geo, fail, counts, label):
         if complete:
             counts.append(('pairs-couplings', [label, key], len(want) > 0, None))
     fp = res.get('find_pairs')
+    q = spec['queries']
+    if q.get('fcp_defaults'):
+        max_dx, cutoff = 3, None
+    else:
+        max_dx, cutoff = q.get('max_dx', 3), q.get('cutoff', 2.5)
+    cutoff_eff = (max_dx - 1e-10) if cutoff is None else cutoff
     if isinstance(fp, list):
-        for (dd, plist), sh in zip(fp, shells):
+        # documented: all couplings with |dx_a| <= max_dx up to the distance cutoff (default max_dx - eps), grouped by distance,
+        # keys ascending, each coupling in one direction only
+        want = [sh for sh in (shells if max_dx >= 5 else distance_shells(range(Lu), d, pos, dist, W=max_dx)) if sh[0] <= cutoff_eff]
+        if len(fp) != len(want):
+            fail('find_coupling_pairs(max_dx=%s, cutoff=%s) returns %d distances %s, brute force within that window and cutoff: %d %s'
+                 % (max_dx, cutoff, len(fp), [round(x[0], 6) for x in fp][:8], len(want), [round(x[0], 6) for x in want][:8]), 'C19:find_coupling_pairs')
+        for (dd, plist), sh in zip(fp, want):
             tup = set((u1, u2, tuple(dx)) for u1, u2, dx in plist)
             rev = set((u2, u1, tuple(-x for x in dx)) for u1, u2, dx in tup)
-            if abs(dd - sh[0]) > 1e-9 or (tup | rev) != sh[1] or (tup & rev):
-                fail('find_coupling_pairs: shell at distance %.6f differs from brute force' % dd, 'C19:find_coupling_pairs')
-            counts.append(('find_pairs', [label, round(dd, 6)], True, None))
+            if abs(dd - sh[0]) > 1e-9 or (tup | rev) != sh[1] or (tup & rev) or len(tup) != len(plist):
+                fail('find_coupling_pairs(max_dx=%s, cutoff=%s): shell at distance %.6f differs from brute force' % (max_dx, cutoff, dd), 'C19:find_coupling_pairs')
+            counts.append(('find_pairs', [label, max_dx, cutoff, round(dd, 6)], True, None))
     elif isinstance(fp, dict):
         fail('find_coupling_pairs raised %s' % fp['error'])
+    # ---- other argument forms of position() / distance() / count_neighbors()
+    pf = g.get('pos_forms')
+    if pf:
+        def close(a, b):
+            return len(a) == len(b) and all(abs(x - y) < 1e-12 for x, y in zip(a, b))
+        one_idx, one_pos = pf['one']
+        if not close(one_pos, pos(one_idx[:-1], one_idx[-1])):
+            fail('position(%s) = %s (one lattice index), documented %s' % (one_idx, one_pos, pos(one_idx[:-1], one_idx[-1])), 'C19:position')
+        far_idx, far_pos = pf['far']
+        for r, pp in zip(far_idx, far_pos):
+            if not close(pp, pos(r[:-1], r[-1])):
+                fail('position(%s) = %s (x_0 outside of the unit cell), documented %s' % (r, pp, pos(r[:-1], r[-1])), 'C19:position')
+        if any(not close(pp, pos(r[:-1], r[-1])) for r, pp in zip(order, pf['list'])):
+            fail('position(list of lattice indices) differs from position(array)', 'C19:position')
+        if len(pf['3d']) != 2 or any(not close(a, b) for blk in pf['3d'] for a, b in zip(blk, far_pos)) or any(len(blk) != len(far_pos) for blk in pf['3d']):
+            fail('position of a 3D index array differs from the positions of its rows', 'C19:position')
+        counts.append(('position-forms', [label], True, None))
+    for key, plist in g['pairs'].items():
+        for (u1, u2, dx), got in zip(plist, (g.get('dist_batch') or {}).get(key, [])):
+            want = [dist(pos([0] * d, u1), pos([f * x for x in dx], u2)) for f in (1, -1, 2)]
+            if len(got) != 3 or any(abs(a - b) > 1e-12 for a, b in zip(got, want)):
+                fail('distance(%d, %d, [dx, -dx, 2dx]) for dx=%s = %s, positions give %s' % (u1, u2, dx, got, want), 'C19:distance')
+    if 'count_default' in g and 'nearest_neighbors' in g['count'] and g['count_default'] != g['count']['nearest_neighbors'][0]:
+        fail('count_neighbors() = %d, count_neighbors(0, "nearest_neighbors") = %d' % (g['count_default'], g['count']['nearest_neighbors'][0]), 'C19:count')
+    wd = g.get('with_disorder')
+    if wd:
+        disorder_checks(spec, eff, res, g, wd, geo, pos, dist, fail, counts, label)
+
+
+def disorder_checks(spec, eff, res, g, wd, geo, pos, dist, fail, counts, label):
+    """position_disorder (documented attribute): position() of a site is shifted by position_disorder[lattice index];
+    distance(u1, u2, dx) becomes an array indexed like the strength of add_coupling (the lat_indices of possible_couplings)
+    holding the distance between the two (shifted) sites of each coupling, ignoring the wrap around periodic boundaries."""
+    Ls = eff['Ls']
+    d = len(Ls)
+    order = res['order']
+    dis = wd['disorder']
+
+    def dis_at(x, u):
+        a = dis
+        for c, L in zip(x, Ls):
+            a = a[c % L]
+        return a[u]
+
+    def shifted(x, u):
+        return [a + b for a, b in zip(pos(x, u), dis_at(x, u))]
+    for k, r in enumerate(order):
+        if dist(shifted(r[:-1], r[-1]), wd['pos_order'][k]) > 1e-12:
+            fail('position(%s) = %s with position_disorder, documented: regular position + position_disorder[%s] = %s'
+                 % (r, wd['pos_order'][k], r, shifted(r[:-1], r[-1])), 'C19:position-disorder')
+            break
+    for r, pp in zip(g['pos_forms']['far'][0], wd['pos_far']):
+        if dist(shifted(r[:-1], r[-1]), pp) > 1e-12:
+            fail('position(%s) = %s with position_disorder (x_0 outside of the unit cell)' % (r, pp), 'C19:position-disorder')
+            break
+    pc = g.get('pair_couplings') or {}
+    for key, plist in g['pairs'].items():
+        for n, (u1, u2, dx) in enumerate(plist):
+            r = pc[key][n]
+            da = wd['dist_arr'][key][n]
+            if 'error' in r or not all(c > 0 for c in r['shape']):
+                continue
+            if 'error' in da:
+                fail('distance(%d, %d, %s) with position_disorder raised %s' % (u1, u2, dx, da['error']), 'C19:distance-disorder')
+                continue
+            if list(da['shape']) != list(r['shape']):
+                fail('distance(%d, %d, %s) with position_disorder has shape %s, the coupling shape is %s' % (u1, u2, dx, da['shape'], r['shape']),
+                     'C19:distance-disorder')
+                continue
+            for i, j, corner in zip(r['i'], r['j'], r['lat'] or []):
+                si = geo.site(i)
+                if si is None:
+                    continue
+                x = list(si[:-1])
+                y = [a + b for a, b in zip(x, dx)]
+                want = dist(shifted(x, u1), [a + b for a, b in zip(pos(y, u2), dis_at(y, u2))])
+                a = da['val']
+                for c in corner:
+                    a = a[c]
+                if abs(a - want) > 1e-12:
+                    fail('distance(%d, %d, %s)[%s] = %r with position_disorder; the coupling with that lat_index joins the sites %s and %s '
+                         'at distance %r' % (u1, u2, dx, list(corner), a, list(si), y + [u2], want), 'C19:distance-disorder')
+                    break
+            counts.append(('distance-disorder', [label, key, n], True, None))
 
 
 def multi_species_checks(spec, g, d, fail, counts, label):
@@ -1300,8 +1898,8 @@ def coq_order_cases(specs, results):
     for spec, res in zip(specs, results):
         if res is None or 'order' not in res or spec['kind'] != 'regular' or spec.get('transform'):
             continue
-        if spec.get('custom_perm') is None:
-            add(spec['cls'], res['shape'], spec['order'], res['order'])
+        if spec.get('custom_perm') is None or spec.get('reorder') is not None:
+            add(spec['cls'], res['shape'], order_of(spec), res['order'])
         for o, rws in zip(spec['queries'].get('orderings', []), res.get('orderings') or []):
             add(spec['cls'], res['shape'], o, rws)
     return cases, info
@@ -1423,12 +2021,26 @@ def main(ctx):
     out = common.run_impl_parallel('c19_impl.py', [{'specs': [specs[k] for k in ch]} for ch in chunks],
                                    maxpar=max(2, common.NPROC // 2))
     results = [None] * len(specs)
+    hit_lines, trace_how = set(), set()
     for ch, (r, err) in zip(chunks, out):
         if err:
             ctx.fail('correspondence', 'implementation runner failed: ' + err[-500:], None)
             return ctx.finish(RULE)
-        for k, x in zip(ch, r):
+        hit_lines.update(r['lines'])
+        trace_how.add(r['trace'])
+        for k, x in zip(ch, r['results']):
             results[k] = x
+    # ---- coverage audit: functions / statements of lattice.py reached by the runner processes, options drawn
+    try:
+        tab, order_names, cov_problems = c19_audit.table(common.REPO, hit_lines)
+        opt_tab, opt_problems = c19_audit.option_table(specs, order_names, lambda c: named_orders(c, None, None, None))
+        ctx.cov['lattice_py_coverage'] = {'how': sorted(trace_how), 'summary': c19_audit.summary(tab), 'functions': tab}
+        ctx.cov['options_drawn'] = opt_tab
+        if not ctx.replay_in:
+            for pr in cov_problems + opt_problems:
+                ctx.fail('correspondence', 'coverage audit: ' + pr, None)
+    except SyntaxError as e:
+        ctx.fail('correspondence', 'coverage audit: tenpy/models/lattice.py does not parse: %s' % e, None)
     tim['impl'] = round(time.time() - t0, 1)
     # ---- oracle (parallel, pure python)
     with multiprocessing.get_context('fork').Pool(max(2, common.NPROC // 2)) as pool:
@@ -1519,6 +2131,16 @@ def main(ctx):
         'C19 not modelled in Coq: HelicalLattice index maps / couplings (oracle only; order and N_sites after enlarge_mps_unit_cell are '
         'modelled in Model/LatticeTransform.v), mps2lat_values_masked and multi-axis mps2lat_values (oracle only; the 1D '
         'mps2lat_values(A) and mps2lat_values(A, u=u) are modelled in Model/LatticeVals.v), positions/distances (float, oracle only)',
+        'C19 oracle exclusions (outside the quantifier "displacement vectors up to the lattice size"): possible_multi_couplings with a box '
+        'longer than an open direction (raises ValueError: negative dimensions, where possible_couplings returns no coupling) is not queried; '
+        'the lat_indices of possible_couplings and of the equivalent two-operator possible_multi_couplings are compared only without bc shift '
+        '(with a shift the two functions label the box from different sites; each is compared with its own documentation)',
+        'C19 oracle exclusion: IrregularLattice.ordering(o) for an order o other than the one the lattice was built with places sites added '
+        'with MPS index None after the index their reference site has in the order of regular_lattice, not in o; the position is not '
+        'compared in that case (the order is still checked to be a bijection onto the sites and all maps are checked on it)',
+        'C19 coverage audit: statements of lattice.py reached are recorded with sys.monitoring in every runner process; unreached statements '
+        'of covered functions are listed in coverage.lattice_py_coverage (charge-shift symmetric sites / DipolarChargeInfo branches of '
+        'mps_sites and test_sanity belong to the charge properties, duplicate-key errors of MultiSpeciesLattice are invalid arguments)',
     ]
     return ctx.finish(RULE, 'theorems of coq/Props/C19.v (all dimensions, sizes, orders) about Model/Lattice.v; the model is run against '
                       'lattice.py by vm_compute on every generated lattice; all classes are compared with a brute-force enumeration '
